@@ -9,9 +9,9 @@
     the stored orientations turn by the SAME rotation as the points (`C05_scenario_headings`).
   * "all moved" is relative to the fields of the model records.  The records list every world-frame attribute of the Python
     classes; harness/c05.py holds the attribute table (ATTR_TABLE) with one decision per attribute and its reflection pass
-    stops the run when a class has a spatial attribute the table does not list.  Two world-frame attributes are NOT moved by
-    the code (area borders, dynamic-obstacle history): `C05_all_moved_scenario_partial` excludes them by name,
-    `C05_all_moved_scenario_full` is the statement including them, and it is refuted on two witnesses.
+    stops the run when a class has a spatial attribute the table does not list.  Area borders and the history of dynamic
+    obstacles (left in place by earlier trees; repaired by 00d3698 / 6df6dd6) are part of `obs` like every other world-frame
+    field: `C05_all_moved_scenario_full` / `C05_all_moved_obstacle_full` are theorems.
 -/
 import CRProofs.Rigid
 import Mathlib.Algebra.Order.Floor.Ring
@@ -198,11 +198,11 @@ theorem C05_inadmissible_state_rejected (m : Mo) (h : Adm m) (st : State) :
 theorem C05_all_moved_lanelet (m : Mo) (h : Adm m) (la : Lanelet) (hw : la.WF) :
     ∃ la', la.move m = .ok la' ∧ Moved m la.obs la'.obs ∧ la'.WF := Lanelet.move_spec h la hw
 
-/-- every obstacle role — static, dynamic (trajectory prediction of any length / set-based prediction / none), phantom,
-    environment: initial state, predicted states, occupancies and the environment shape are moved; the body-frame shapes
-    (`obstacle_shape`, `TrajectoryPrediction.shape`) stay; the `history` of a dynamic obstacle is NOT moved (last clause). -/
-theorem C05_all_moved_obstacle_partial (m : Mo) (h : Adm m) (o : Obstacle) (hw : o.WF m.τ) :
-    ∃ o', o.move m = .ok o' ∧ Moved m o.obs o'.obs ∧ o'.WF m.τ ∧ o'.bodies = o.bodies ∧ o'.histObs = o.histObs :=
+/-- every obstacle role — static, dynamic (trajectory prediction of any length / set-based prediction / none, history of
+    any length), phantom, environment: initial state, predicted states, HISTORY states, occupancies and the environment shape
+    are moved; the body-frame shapes (`obstacle_shape`, `TrajectoryPrediction.shape`) stay. -/
+theorem C05_all_moved_obstacle_full (m : Mo) (h : Adm m) (o : Obstacle) (hw : o.WF m.τ) :
+    ∃ o', o.move m = .ok o' ∧ Moved m o.obs o'.obs ∧ o'.WF m.τ ∧ o'.bodies = o.bodies :=
   Obstacle.move_spec h o hw
 
 /-- a traffic light: the position is moved, the optional `shape` (body frame) stays.
@@ -211,75 +211,59 @@ theorem C05_light (m : Mo) (h : Adm m) (l : Light) :
     ∃ l', l.move m = .ok l' ∧ l'.pos = m.mv l.pos ∧ l'.shape = l.shape :=
   ⟨⟨m.mv l.pos, l.shape⟩, by simp [Light.move, movePosition, guard_ok h], rfl, rfl⟩
 
-/-! ### the scenario: what is moved, what is left, and the full statement refuted -/
+/-! ### the scenario -/
 
-/-- PARTIAL (excluded, by name: `Scenario.areas` = `lanelet_network.areas[*].border[*].border_vertices` and
-    `Obstacle.dynamic … hist` = `DynamicObstacle.history`; both are world-frame and left in place by the code, see
-    `C05_left_in_place`, `C05_witness_*`).  For a scenario containing ANY mix and number of lanelets (with stop lines),
-    traffic signs, traffic lights and obstacles of all four roles, `translate_rotate` with an admissible angle never fails, and
-    — for the fields of the model record other than the two excluded ones — the list of stored points of the result is `tr`
-    mapped over the list of stored points of the input (nothing of it skipped or added), all orientations are
-    `make_valid_orientation(θ + a)`, all orientation intervals shifted, all dimensions unchanged, every polygon / polyline /
-    rectangle moved as a whole.  The model record lists every world-frame attribute of the Python classes
-    (harness ATTR_TABLE + reflection pass). -/
-theorem C05_all_moved_scenario_partial (m : Mo) (h : Adm m) (sc : Scenario) (hw : sc.WF m.τ) :
-    ∃ sc', sc.move m = .ok sc' ∧ Moved m sc.obs sc'.obs ∧ sc'.WF m.τ :=
-  let ⟨sc', e, hm, hw', _, _⟩ := Scenario.move_spec h sc hw
-  ⟨sc', e, hm, hw'⟩
+/-- FULL statement ("every stored point"): for a scenario containing ANY mix and number of lanelets (with stop lines), traffic
+    signs, traffic lights, obstacles of all four roles (with histories) and areas, `translate_rotate` with an admissible angle
+    never fails, and for ALL world-frame fields of the model record the list of stored points of the result is `tr` mapped over
+    the list of stored points of the input (nothing skipped or added), all orientations are `make_valid_orientation(θ + a)`,
+    all orientation intervals shifted, all dimensions unchanged, every polygon / polyline (incl. area borders) / rectangle moved
+    as a whole.  The model record lists every world-frame attribute of the Python classes (harness ATTR_TABLE + reflection
+    pass: checked per run, not a theorem). -/
+theorem C05_all_moved_scenario_full (m : Mo) (h : Adm m) (sc : Scenario) (hw : sc.WF m.τ) :
+    ∃ sc', sc.move m = .ok sc' ∧ Moved m sc.obs sc'.obs ∧ sc'.WF m.τ := Scenario.move_spec h sc hw
 
-/-- The statement at full strength ("every stored point"): ALL world-frame content of the scenario record, including area
-    borders and obstacle histories, is moved.  FALSE for the code as it is: `C05_witness_area_not_moved`,
-    `C05_witness_history_not_moved`. -/
-def C05_all_moved_scenario_full : Prop :=
-  ∀ (m : Mo), Adm m → ∀ sc : Scenario, sc.WF m.τ → ∃ sc', sc.move m = .ok sc' ∧ Moved m sc.obsFull sc'.obsFull
+/-- in particular the field that earlier trees left in place at scenario level: every area border is moved vertex by vertex.
+    Regression case: corpus/C05/area_regression.json. -/
+theorem C05_areas_moved (m : Mo) (h : Adm m) (sc : Scenario) (hw : sc.WF m.τ) :
+    ∃ sc', sc.move m = .ok sc' ∧ Moved m (areasObs sc.areas) (areasObs sc'.areas) := by
+  obtain ⟨ls, e1, _⟩ := mapR_moved m (Lanelet.move m) Lanelet.obs Lanelet.WF
+    (fun la hla => Lanelet.move_spec h la hla) sc.lanelets hw.1
+  obtain ⟨lt, e3, _⟩ := mapR_moved m (Light.move m) Light.obs (fun _ => True)
+    (fun l _ => let ⟨l', e, hm, _⟩ := Light.move_spec h l; ⟨l', e, hm, trivial⟩) sc.lights (fun _ _ => trivial)
+  obtain ⟨obs, e4, _⟩ := mapR_moved m (Obstacle.move m) Obstacle.obs (Obstacle.WF m.τ)
+    (fun o ho => let ⟨o', e, hm, hw', _⟩ := Obstacle.move_spec h o ho; ⟨o', e, hm, hw'⟩) sc.obstacles hw.2
+  exact ⟨⟨ls, sc.signs.map m.mv, lt, obs, sc.areas.map (List.map (List.map m.mv))⟩,
+         by simp [Scenario.move, guard_ok h, e1, mapR_movePosition h, e3, e4], areasObs_moved m _⟩
 
-/-- what the code does with the two excluded fields, for every scenario: area borders and histories are left exactly as
-    they were (model of: no `translate_rotate` on `Area`/`AreaBorder`, `DynamicObstacle.translate_rotate` ignores `history`). -/
-theorem C05_left_in_place (m : Mo) (h : Adm m) (sc : Scenario) (hw : sc.WF m.τ) :
-    ∃ sc', sc.move m = .ok sc' ∧ sc'.areas = sc.areas ∧ sc'.leftObs = sc.leftObs :=
-  let ⟨sc', e, _, _, hl, ha⟩ := Scenario.move_spec h sc hw
-  ⟨sc', e, ha, hl⟩
+/-- and at obstacle level: every history state of a dynamic obstacle is moved (by `State.translate_rotate`, like the states of
+    a trajectory).  Regression case: corpus/C05/history_regression.json. -/
+theorem C05_history_moved (m : Mo) (h : Adm m) (b : Shape) (st : State) (p : Pred) (hist : List State)
+    (hw : (Obstacle.dynamic b st p hist).WF m.τ) :
+    ∃ st' p' hist', (Obstacle.dynamic b st p hist).move m = .ok (.dynamic b st' p' hist')
+      ∧ moveStates m hist = .ok hist' ∧ Moved m (obsL State.obs hist) (obsL State.obs hist') := by
+  obtain ⟨st', e1, _, _⟩ := State.move_spec h st hw.1
+  obtain ⟨p', e2, _, _, _⟩ := Pred.move_spec h p hw.2.1
+  obtain ⟨hist', e3, hm3, _⟩ := moveStates_spec h hist hw.2.2
+  exact ⟨st', p', hist', by simp [Obstacle.move, guard_ok h, e1, e2, e3], e3, hm3⟩
 
 /-- the 3-4-5 rotation with `τ = 7 > 2·3`, `a = 1`, translation `(2, -1)`. -/
 def exMo : Mo := ⟨3 / 5, 4 / 5, 1, ⟨2, -1⟩, 7⟩
 
 theorem exMo_adm : Adm exMo := ⟨by norm_num [exMo], by decide +kernel, by norm_num [exMo]⟩
 
-/-- scenario with a single area whose border has the vertex (1, 0) -/
-def exAreaScenario : Scenario := ⟨[], [], [], [], [[[⟨1, 0⟩]]]⟩
-/-- scenario with a single dynamic obstacle at (0, 0) whose history holds a state at (1, 0) -/
-def exHistScenario : Scenario :=
-  ⟨[], [], [], [.dynamic (.rect 4 2 ⟨0, 0⟩ 0) ⟨.pt ⟨0, 0⟩, .exact 0, none⟩ .none [⟨.pt ⟨1, 0⟩, .exact 0, none⟩]], []⟩
-
-/-- WITNESS (replayed on the real code: corpus/C05/area_known_finding.json; recorded as known finding
-    `C05/LaneletNetwork.translate_rotate/area-border-not-moved`, patch in proposed_fixes/): an area border stays where it
-    was, so the scenario as a whole is not moved. -/
-theorem C05_witness_area_not_moved :
-    ∀ sc', exAreaScenario.move exMo = .ok sc' → ¬ Moved exMo exAreaScenario.obsFull sc'.obsFull := by
-  apply Scenario.not_moved_full exMo_adm exAreaScenario
-  · exact ⟨by simp [exAreaScenario], by simp [exAreaScenario]⟩
-  · simp only [Scenario.leftObs, exAreaScenario, obsL, Obs.ofPts, Obs.nil, Obs.app_pts, List.flatten]
-    decide +kernel
-
-/-- WITNESS (replayed on the real code: corpus/C05/history_known_finding.json; recorded as known finding
-    `C05/DynamicObstacle.translate_rotate/history-not-moved`, patch in proposed_fixes/): the history of a dynamic obstacle
-    stays where it was. -/
-theorem C05_witness_history_not_moved :
-    ∀ sc', exHistScenario.move exMo = .ok sc' → ¬ Moved exMo exHistScenario.obsFull sc'.obsFull := by
-  apply Scenario.not_moved_full exMo_adm exHistScenario
-  · refine ⟨by simp [exHistScenario], ?_⟩
-    intro o ho
-    simp only [exHistScenario, List.mem_singleton] at ho
-    subst ho
-    exact ⟨⟨trivial, trivial⟩, trivial⟩
-  · simp only [Scenario.leftObs, exHistScenario, obsL, Obstacle.histObs, State.obs, Pos.obs, Ori.obs, Obs.ofPts, Obs.nil,
-      Obs.app_pts, List.flatten, Option.toList, List.append_nil, List.nil_append, List.map_cons, List.map_nil]
-    decide +kernel
-
-theorem C05_witness_full_is_false : ¬ C05_all_moved_scenario_full := by
-  intro hfull
-  obtain ⟨sc', e, hm⟩ := hfull exMo exMo_adm exAreaScenario ⟨by simp [exAreaScenario], by simp [exAreaScenario]⟩
-  exact C05_witness_area_not_moved sc' e hm
+/-- LEGACY (trees before 00d3698 / 6df6dd6 left area borders and histories where they were): leaving a stored point in place is
+    not the motion — under `exMo` the point (1, 0) of the two regression cases is not a fixed point, so content that keeps it
+    cannot be `Moved`. -/
+theorem C05_witness_legacy_left_in_place_not_moved :
+    exMo.mv ⟨1, 0⟩ ≠ ⟨1, 0⟩ ∧ ¬ Moved exMo (areasObs [[[⟨1, 0⟩]]]) (areasObs [[[⟨1, 0⟩]]]) := by
+  have hne : exMo.mv ⟨1, 0⟩ ≠ ⟨1, 0⟩ := by decide +kernel
+  refine ⟨hne, fun hm => ?_⟩
+  have := hm.pts
+  have e : (areasObs [[[(⟨1, 0⟩ : Pt)]]]).pts = [⟨1, 0⟩] := rfl
+  rw [e] at this
+  simp only [List.map_cons, List.map_nil, List.cons.injEq, and_true] at this
+  exact hne this.symm
 
 /-- a planning-problem set: initial states and all goal states (regions, orientation intervals) — the `Problem` record has no
     further spatial field. -/
@@ -292,7 +276,7 @@ theorem C05_all_moved_problems (m : Mo) (h : Adm m) (l : List Problem) (hw : ∀
 /-- On the scenario as a whole: the distance between ANY two listed points (of the same or of different components) is
     preserved; the area of EVERY polygon (lanelet polygons, polygon shapes of occupancies / regions / environment
     obstacles) is preserved; the squared length of EVERY segment of every polyline (left / center / right boundary of every
-    lanelet, stop lines) is preserved — hence every lanelet length, being the sum of the roots of equal numbers. -/
+    lanelet, stop lines, area borders) is preserved — hence every lanelet length, being the sum of the roots of equal numbers. -/
 theorem C05_scenario_preserved (m : Mo) (h : Adm m) (h1 : m.c ^ 2 + m.s ^ 2 = 1) (sc : Scenario) (hw : sc.WF m.τ) :
     ∃ sc', sc.move m = .ok sc'
       ∧ (∀ i j : Nat, ∀ p q p' q' : Pt, sc.obs.pts[i]? = some p → sc.obs.pts[j]? = some q →
@@ -300,7 +284,7 @@ theorem C05_scenario_preserved (m : Mo) (h : Adm m) (h1 : m.c ^ 2 + m.s ^ 2 = 1)
       ∧ sc'.obs.rings.map areaOf = sc.obs.rings.map areaOf
       ∧ sc'.obs.lines.map segs2 = sc.obs.lines.map segs2
       ∧ sc'.obs.dims = sc.obs.dims := by
-  obtain ⟨sc', e, hm, _, _, _⟩ := Scenario.move_spec h sc hw
+  obtain ⟨sc', e, hm, _⟩ := Scenario.move_spec h sc hw
   exact ⟨sc', e, hm.dists h1, hm.areas h1, hm.lengths h1, hm.dims⟩
 
 /-- the same on one lanelet: polygon area, and the segment lengths of `[left, center, right, stop line]`. -/
@@ -336,7 +320,7 @@ theorem C05_scenario_headings (m : Mo) (h : Adm m) (dir : Rat → Pt) (hc : Cohe
       ∧ sc'.obs.ivs.map (fun i => (dir i.lo, dir i.hi)) = sc.obs.ivs.map (fun i => (m.rv (dir i.lo), m.rv (dir i.hi)))
       ∧ sc'.obs.rects.map (Rect.corners dir) = sc.obs.rects.map (fun r => (r.corners dir).map m.mv)
       ∧ sc'.obs.vels = sc.obs.vels.map m.rv := by
-  obtain ⟨sc', e, hm, _, _, _⟩ := Scenario.move_spec h sc hw
+  obtain ⟨sc', e, hm, _⟩ := Scenario.move_spec h sc hw
   exact ⟨sc', e, hm.headings hc h.τpos, IvsMoved.headings hc hm.ivs, hm.corners hc h.τpos, hm.vels⟩
 
 /-- the same for planning problems (initial states, goal regions with rectangles and orientation intervals). -/
@@ -357,9 +341,9 @@ theorem C05_problems_headings (m : Mo) (h : Adm m) (dir : Rat → Pt) (hc : Cohe
 theorem C05_scenario_inverse (m : Mo) (h : Adm m) (h1 : m.c ^ 2 + m.s ^ 2 = 1) (sc : Scenario) (hw : sc.WF m.τ) :
     ∃ sc1 sc2 sc3, sc.move m = .ok sc1 ∧ sc1.move m.invRot = .ok sc2 ∧ sc2.move m.invTr = .ok sc3
       ∧ Restored m.τ sc.obs sc3.obs := by
-  obtain ⟨sc1, e1, hm1, hw1, _, _⟩ := Scenario.move_spec h sc hw
-  obtain ⟨sc2, e2, hm2, hw2, _, _⟩ := Scenario.move_spec h.invRot sc1 hw1
-  obtain ⟨sc3, e3, hm3, _, _, _⟩ := Scenario.move_spec h.invTr sc2 hw2
+  obtain ⟨sc1, e1, hm1, hw1⟩ := Scenario.move_spec h sc hw
+  obtain ⟨sc2, e2, hm2, hw2⟩ := Scenario.move_spec h.invRot sc1 hw1
+  obtain ⟨sc3, e3, hm3, _⟩ := Scenario.move_spec h.invTr sc2 hw2
   exact ⟨sc1, sc2, sc3, e1, e2, e3, hm1.restored h1 h.τpos hm2 hm3⟩
 
 /-- the same for a planning-problem set. -/
@@ -454,11 +438,14 @@ example : exScenario.WF exMo.τ := by
     simp only [exScenario, List.mem_cons, List.not_mem_nil, or_false] at ho
     rcases ho with rfl | rfl | rfl | rfl | rfl | rfl
     · exact ⟨trivial, trivial⟩
-    · refine ⟨⟨trivial, by norm_num [exMo], by norm_num [exMo]⟩, ?_⟩
-      intro st hst
-      simp only [List.mem_singleton] at hst
-      subst hst; exact ⟨trivial, trivial⟩
-    · refine ⟨⟨trivial, trivial⟩, ?_⟩
+    · refine ⟨⟨trivial, by norm_num [exMo], by norm_num [exMo]⟩, ?_, ?_⟩
+      · intro st hst
+        simp only [List.mem_singleton] at hst
+        subst hst; exact ⟨trivial, trivial⟩
+      · intro st hst
+        simp only [List.mem_singleton] at hst
+        subst hst; exact ⟨trivial, trivial⟩
+    · refine ⟨⟨trivial, trivial⟩, ?_, by simp⟩
       intro sh hsh
       simp only [List.mem_singleton] at hsh
       subst hsh
